@@ -1,6 +1,6 @@
 (* C06 -- Parse / re-serialise is byte-exact; stacked pickles partition the input.
-   Only the property theorems (closed by [exact]), non-vacuity examples, the refutation witness
-   of the known finding, and the assumptions.  Model: model/Codec.v; lemmas: proofs/CodecProofs.v.
+   Only the property theorems (closed by [exact]), non-vacuity examples, the regression example of
+   the repaired finding D12, and the assumptions.  Model: model/Codec.v; lemmas: proofs/CodecProofs.v.
    All statements quantify over ALL byte lists and ALL start offsets; no length bound. *)
 From Coq Require Import List String ZArith NArith Bool Arith.
 From Coq.Strings Require Import Byte.
@@ -121,16 +121,47 @@ Theorem C06_stacked_sound : forall buf start parts e,
   start <= e /\ parts <> [] /\ Forall (fun p => exists q, ends_in_stop p q) parts.
 Proof. exact stacked_stream_sound. Qed.
 
-(* Non-seekable stream: dumps() is still exact, but the caller's stream is consumed to its end,
-   so whatever followed the first pickle can no longer be read from it (D12). *)
+(* ... and on a non-seekable stream that has already handed out [pre]: the reader is shared by the
+   loop's Pickled.load calls, positions count from the first pickle *)
+Theorem C06_stacked_partition_nonseekable : forall items pre tail,
+  items <> [] ->
+  Forall (fun bp => complete (fst bp) (snd bp)) items ->
+  load_stream (List.concat (map fst items) ++ tail) (List.length (List.concat (map fst items))) = LErr LEmpty ->
+  stacked_load KNonSeekable (pre ++ List.concat (map fst items) ++ tail) (List.length pre)
+    = LOk (shift_parts 0 items, List.length (List.concat (map fst items))) /\
+  List.length (shift_parts 0 items) = List.length items /\
+  Forall2 (fun part bp => dumps part = Ok (fst bp)) (shift_parts 0 items) items.
+Proof. exact stacked_nonseekable_partition. Qed.
+
+(* Non-seekable stream that has already handed out off bytes (fickle._RecordingReader): whenever
+   Pickled.load succeeds, dumps() is exactly the e bytes of the first pickle, bs[off, off+e); the parse
+   ends in a STOP whose end is e (the reader's coordinates start at 0); the CALLER's stream has handed out
+   exactly those e bytes -- it stands at off+e --, what it can still deliver is exactly bs[off+e:], and
+   nothing is lost: bs = bs[:off] ++ dumps ++ bs[off+e:]. *)
 Theorem C06_nonseekable : forall bs off r,
-  load_model KNonSeekable bs off = LOk r -> off <= List.length bs ->
+  load_model KNonSeekable bs off = LOk r ->
   dumps (l_ops r) = Ok (firstn (l_end r) (skipn off bs)) /\
   ends_in_stop (l_ops r) (l_end r) /\ starts_at (l_ops r) 0 /\
   0 < l_end r /\ off + l_end r <= List.length bs /\
-  l_caller r = Some (List.length bs) /\ caller_rest bs r = Some [] /\
-  (skipn (off + l_end r) bs <> [] -> caller_rest bs r <> Some (skipn (off + l_end r) bs)).
+  l_caller r = Some (off + l_end r) /\
+  caller_rest bs r = Some (skipn (off + l_end r) bs) /\
+  bs = firstn off bs ++ firstn (l_end r) (skipn off bs) ++ skipn (off + l_end r) bs.
 Proof. exact nonseekable_exact. Qed.
+
+(* Why the recording reader is enough.  At the loop iteration for token t the reader holds the bytes
+   genops has taken so far, [recorded buf t] = the first t_pos+t_len bytes; the back-fill of the previous
+   opcode and the data of the new one computed from THOSE bytes alone are what a random-access stream
+   over the whole input gives -- for every buffer, every well-formed token, every opcode list -- hence
+   the whole load is the load over a buffer. *)
+Theorem C06_reads_within_recorded : forall buf t acc,
+  tok_ok buf t ->
+  backfill (recorded buf t) acc (t_pos t) = backfill buf acc (t_pos t) /\
+  immediate_data (recorded buf t) t = immediate_data buf t.
+Proof. exact loop_step_from_recorded. Qed.
+
+Theorem C06_recording_reader_transparent : forall buf start,
+  load_stream_rec buf start = load_stream buf start.
+Proof. exact load_stream_rec_eq. Qed.
 
 (* ---- witnesses / non-vacuity ---- *)
 (* pickle.dumps([1, 'a'], 2) = \x80\x02]q\x00(K\x01X\x01\x00\x00\x00ae. *)
@@ -138,17 +169,35 @@ Definition ex_b : list byte :=
   [x80; x02; x5d; x71; x00; x28; x4b; x01; x58; x01; x00; x00; x00; x61; x65; x2e].
 Definition ex_none : list byte := [x4e; x2e].    (* N. *)
 
-(* KNOWN FINDING (D12): "N.N." through a non-seekable reader -- the parse is exact but the second
-   pickle is gone from the caller's stream. *)
-Lemma C06_refuted_nonseekable_tail :
-  exists bs r, load_model KNonSeekable bs 0 = LOk r /\
-               dumps (l_ops r) = Ok (firstn (l_end r) bs) /\
-               skipn (l_end r) bs = ex_none /\
-               caller_rest bs r = Some [] /\
-               caller_rest bs r <> Some (skipn (l_end r) bs).
+(* REGRESSION of the repaired finding D12: "N.N." through a non-seekable reader -- the parse is exact,
+   the second pickle is still in the caller's stream, a second Pickled.load on the same stream (which has
+   by then handed out 2 bytes) returns it, and StackedPickle.load yields both. *)
+Example C06_nonseekable_tail_kept :
+  exists r r2, load_model KNonSeekable (ex_none ++ ex_none) 0 = LOk r /\
+               dumps (l_ops r) = Ok ex_none /\ l_end r = 2 /\ l_caller r = Some 2 /\
+               caller_rest (ex_none ++ ex_none) r = Some ex_none /\
+               load_model KNonSeekable (ex_none ++ ex_none) 2 = LOk r2 /\
+               dumps (l_ops r2) = Ok ex_none /\ caller_rest (ex_none ++ ex_none) r2 = Some [] /\
+               exists ps, stacked_load KNonSeekable (ex_none ++ ex_none) 0 = LOk (ps, 4) /\ List.length ps = 2.
 Proof.
-  exists (ex_none ++ ex_none). eexists. split; [vm_compute; reflexivity|].
-  vm_compute. repeat split. discriminate.
+  eexists. eexists. split; [vm_compute; reflexivity|].
+  do 4 (split; [vm_compute; reflexivity|]).
+  split; [vm_compute; reflexivity|].
+  do 2 (split; [vm_compute; reflexivity|]).
+  eexists. split; [vm_compute; reflexivity|]. reflexivity.
+Qed.
+
+Example C06_nonvacuous_nonseekable :
+  exists r, load_model KNonSeekable (ex_none ++ ex_b ++ [x4b]) 2 = LOk r /\
+            l_end r = 16 /\ l_caller r = Some 18 /\ dumps (l_ops r) = Ok ex_b /\
+            caller_rest (ex_none ++ ex_b ++ [x4b]) r = Some [x4b].
+Proof. eexists. split; [vm_compute; reflexivity|]. vm_compute. repeat split. Qed.
+
+Example C06_nonvacuous_recorded :
+  exists r, lookup x58 = Some r /\ tok_ok ex_b (mkTok r 8 6) /\
+            recorded ex_b (mkTok r 8 6) = firstn 14 ex_b.
+Proof.
+  eexists. split; [vm_compute; reflexivity|]. split; [unfold tok_ok; vm_compute; reflexivity|]. reflexivity.
 Qed.
 
 Example C06_nonvacuous_load :
@@ -186,5 +235,8 @@ Print Assumptions C06_prefix_determinism.
 Print Assumptions C06_stacked_partition.
 Print Assumptions C06_stacked_partition_seekable.
 Print Assumptions C06_stacked_sound.
+Print Assumptions C06_stacked_partition_nonseekable.
 Print Assumptions C06_nonseekable.
-Print Assumptions C06_refuted_nonseekable_tail.
+Print Assumptions C06_reads_within_recorded.
+Print Assumptions C06_recording_reader_transparent.
+Print Assumptions C06_nonseekable_tail_kept.
